@@ -31,7 +31,9 @@
     (Before the repair of the five joins — `try … finally` around the body, as `overlap_join_py` already had — a
     join raising after validation left the flag switched and these statements needed the hypothesis "every call
     returns normally, is an overlap join, or is rejected up front"; that excluded case no longer exists.)
-  * `inputs_immutable`: see below.
+  * `inputs_immutable`: NOT a statement about mutation of DataFrame objects (impossible in a value-level model; the
+    oracle's deep snapshots check that) — it states that the validation blocks return the tables they were given and
+    that outcomes are functions of (arguments, flag); see below and the theorem's docstring.
 
   INPUT TABLES.  In the model a DataFrame is a VALUE (`Frame`); an entry point is a function from its arguments to
   its result, so "the call modified the table object it was given" cannot even be expressed — in-place mutation of
@@ -143,11 +145,17 @@ theorem mixed_history_independent (cpu : Int) (flags : List Bool) (calls : List 
 
 /-! ## C. Inputs -/
 
-/-- INPUTS.  (DataFrame mutation itself is outside the model — see the header.)  The model-level content:
+/-- INPUTS — what this theorem does and does NOT state.  It does NOT state that the real entry points leave the
+    DataFrame objects they are given unmodified: in a value-level model a table is a value (`Frame`), there is no
+    object to mutate, and "immutability" in that sense cannot be formulated, let alone proved.  That part of C12 is
+    checked at runtime by the oracle of the harness, which takes DEEP SNAPSHOTS of every input (values, dtypes,
+    columns, index) before each call and compares them afterwards.  The name is kept for the record; the content is:
     (1) within ANY history the outcome of a call is `Session.runCall cpu c flag` — a function of the
-        call's own arguments and its tokenizer's flag, with no access to what earlier calls did or returned;
-    (2) the tables a validated join works on are the very values it was given (`validateJoin` returns its two
-        table arguments unchanged), and likewise for `filter_tables`, `apply_matcher`, `filter_candset`. -/
+        call's own arguments and its tokenizer's flag, with no access to what earlier calls did or returned
+        (`history_independent` restated);
+    (2) the validation blocks RETURN THEIR ARGUMENTS: the tables a validated join works on are the very values it was
+        given (`validateJoin … = .ok (l, r)` implies `a.ltable = some l`, `a.rtable = some r`), and likewise for
+        `filter_tables`, `apply_matcher`, `filter_candset` — no copy, projection or conversion happens before the body. -/
 theorem inputs_immutable :
     (∀ (cpu : Int) (flags : List Bool) (calls : List Session.Call),
       (Session.run cpu flags calls).2 = calls.map (fun c => Session.runCall cpu c (flags.getD c.tokId false))) ∧
